@@ -22,14 +22,19 @@ var sigma = []string{"a", "Z", "0", "_", "-", ".", ":", "/", "\\", "@", "%", " "
 
 // genSigma emits every string made of at most maxSyms symbols of sigma that
 // starts with the given symbols (pre-order: shorter strings first).
-func genSigma(prefix []int, maxSyms int, emit func(string)) {
+func genSigma(prefix []int, maxSyms int, emit func(string)) { genSigmaFrom(prefix, 0, maxSyms, emit) }
+
+// genSigmaFrom is genSigma restricted to strings of at least minSyms symbols.
+func genSigmaFrom(prefix []int, minSyms, maxSyms int, emit func(string)) {
 	buf := make([]byte, 0, 4*maxSyms)
 	for _, p := range prefix {
 		buf = append(buf, sigma[p]...)
 	}
 	var rec func(buf []byte, n int)
 	rec = func(buf []byte, n int) {
-		emit(string(buf))
+		if n >= minSyms {
+			emit(string(buf))
+		}
 		if n == maxSyms {
 			return
 		}
@@ -203,16 +208,17 @@ func genDigestSigma(sepIdx int, k int, emit func(string)) {
 // ---- item list ------------------------------------------------------------------
 
 type bounds struct {
-	SigmaLen          int // family S: symbols
-	BlobsPathSigmaLen int // family S strings up to this many symbols are also fed to server.GetBlobsPath
-	DigestSigmaLen    int // family D2: inserted symbols
-	FSSigmaLen        int // family F: symbols of the names put on a real directory
+	SigmaLen          int  // family S: symbols
+	SigmaLayer        bool // the strings of exactly SigmaLen symbols are separate, last-scheduled work items (T)
+	BlobsPathSigmaLen int  // family S strings up to this many symbols are also fed to server.GetBlobsPath
+	DigestSigmaLen    int  // family D2: inserted symbols
+	FSSigmaLen        int  // family F: symbols of the names put on a real directory
 	Thorough          bool
 }
 
 func tierBounds(thorough bool) bounds {
 	if thorough {
-		return bounds{SigmaLen: 7, BlobsPathSigmaLen: 5, DigestSigmaLen: 3, FSSigmaLen: 4, Thorough: true}
+		return bounds{SigmaLen: 7, SigmaLayer: true, BlobsPathSigmaLen: 5, DigestSigmaLen: 3, FSSigmaLen: 4, Thorough: true}
 	}
 	return bounds{SigmaLen: 5, BlobsPathSigmaLen: 3, DigestSigmaLen: 2, FSSigmaLen: 4}
 }
@@ -220,13 +226,6 @@ func tierBounds(thorough bool) bounds {
 // items lists the work items of the pure (no file system state) families.
 func pureItems(b bounds) []string {
 	var items []string
-	// S: split on the first two symbols; "S short" covers "", and the 1-symbol strings
-	items = append(items, "S short")
-	for i := range sigma {
-		for j := range sigma {
-			items = append(items, fmt.Sprintf("S %d %d", i, j))
-		}
-	}
 	alpha := partAlphabet(b.Thorough)
 	for _, f := range formsFull {
 		if len(forms[f]) >= 3 {
@@ -252,6 +251,22 @@ func pureItems(b bounds) []string {
 		items = append(items, fmt.Sprintf("D %d", i))
 	}
 	items = append(items, "E 0", "E 1")
+	// S: split on the first two symbols; "S short" covers "" and the 1-symbol
+	// strings. With SigmaLayer the strings of exactly SigmaLen symbols form
+	// their own items (T), scheduled last.
+	items = append(items, "S short")
+	for i := range sigma {
+		for j := range sigma {
+			items = append(items, fmt.Sprintf("S %d %d", i, j))
+		}
+	}
+	if b.SigmaLayer {
+		for i := range sigma {
+			for j := range sigma {
+				items = append(items, fmt.Sprintf("T %d %d", i, j))
+			}
+		}
+	}
 	return items
 }
 
@@ -272,7 +287,13 @@ func runItem(item string, b bounds, emit func(string)) {
 			}
 			return
 		}
-		genSigma([]int{atoi(f[1]), atoi(f[2])}, b.SigmaLen, emit)
+		top := b.SigmaLen
+		if b.SigmaLayer {
+			top--
+		}
+		genSigma([]int{atoi(f[1]), atoi(f[2])}, top, emit)
+	case "T":
+		genSigmaFrom([]int{atoi(f[1]), atoi(f[2])}, b.SigmaLen, b.SigmaLen, emit)
 	case "N":
 		genForm(forms[f[1]], partAlphabet(b.Thorough), atoi(f[2]), emit)
 	case "W":
